@@ -74,6 +74,15 @@ func genWorld(r *sim.Rand) World {
 // Generate draws a plan for property prop.
 func Generate(prop string, r *sim.Rand, tier string) *sim.Plan {
 	cfg := CConfig{World: genWorld(r), Chains: r.Range(2, 3), Services: r.Range(1, 2), Users: 3, Profile: prop}
+	if prop == "C15" || prop == "C16" {
+		cfg.World.Admins = r.Range(1, 4)
+		if r.Chance(0.6) {
+			cfg.World.Strategy = []string{"a > 0.5 * t", "a >= t", "a >= 1", "a - r >= 2", "a >= 0.75 * t"}[r.Intn(5)]
+			if cfg.World.Strategy == "a - r >= 2" && cfg.World.Admins < 2 {
+				cfg.World.Strategy = "a >= 1"
+			}
+		}
+	}
 	if prop == "C05" {
 		cfg.Chains, cfg.Services = 3, r.Range(1, 2) // children spread over one or several destination chains
 	}
@@ -206,6 +215,24 @@ func (g *gen) call() CStep {
 		Role: []string{"outsider", "outsider", "outsider", "chainadmin", "otherchainadmin", "govadmin", "node"}[r.Intn(7)]}
 }
 
+func (g *gen) govOp() CStep {
+	r := g.r
+	st := CStep{Op: "gov", A: r.Intn(4), B: r.Intn(4), N: r.Intn(4), Obj: []string{"chain", "service", "service"}[r.Intn(3)], Act: []string{"freeze", "freeze", "activate", "activate", "logout"}[r.Intn(5)]}
+	// the role that is allowed to do it, most of the time
+	switch st.Act {
+	case "freeze":
+		st.Role = "govadmin"
+	case "activate":
+		st.Role = []string{"chainadmin", "govadmin"}[r.Intn(2)]
+	default:
+		st.Role = "chainadmin"
+	}
+	if r.Chance(0.1) {
+		st.Role = []string{"outsider", "chainadmin", "govadmin"}[r.Intn(3)]
+	}
+	return st
+}
+
 func (g *gen) transfer() CStep {
 	r := g.r
 	classes := []string{"zero", "one", "small", "small", "exact", "over", "huge", "junk"}
@@ -235,6 +262,28 @@ func (g *gen) cut() CStep { return CStep{Op: "cut"} }
 func (g *gen) step(prop string) []CStep {
 	r := g.r
 	switch prop {
+	case "C15", "C16":
+		wg := []int{6, 8, 6, 5, 1}
+		if prop == "C16" {
+			wg = []int{6, 5, 10, 5, 1}
+		}
+		switch r.Weighted(wg) {
+		case 0:
+			return []CStep{g.govOp()}
+		case 1:
+			return []CStep{CStep{Op: "vote", N: r.Intn(64), A: r.Intn(16), V: []string{"approve", "approve", "approve", "reject", "reject", "junk"}[r.Intn(6)]}}
+		case 2:
+			st := g.ibtp()
+			st.Proof, st.Sender = "", ""
+			if r.Chance(0.8) {
+				st.Idx = "next"
+			}
+			return []CStep{st}
+		case 3:
+			return []CStep{g.cut()}
+		default:
+			return []CStep{g.transfer()}
+		}
 	case "C05":
 		switch r.Weighted([]int{3, 10, 10, 6, 1, 1}) {
 		case 0:
